@@ -703,6 +703,92 @@ fn gen_values_reset(sink: &mut CaseSink, st: &mut Stats, rng: &mut Rng, thorough
     }
 }
 
+/// value updates through the maps: drive the real `_update_values` / `_scale_values` /
+/// `update_P` / `update_A` on a freshly built DirectLDLKKTSolver and print before/after values
+fn mapops_case(inp: &Value) -> Option<String> {
+    let p = Raw::from_json(&inp["P"]);
+    let a = Raw::from_json(&inp["A"]);
+    let cones = cds_from(&inp["cones"]);
+    let ct: Vec<SupportedConeT<f64>> = cones.iter().map(|c| c.cone()).collect();
+    let mut settings = DefaultSettings::<f64>::default();
+    settings.verbose = false;
+    settings.direct_solve_method = "qdldl".to_string();
+    let ops = inp["ops"].as_array().unwrap().clone();
+    let r = guarded(move || {
+        let mut d = vh::Driven::new(&p.csc(), &a.csc(), &ct, settings);
+        let before = d.snapshot();
+        let mut coq_ops: Vec<String> = vec![];
+        for op in ops.iter() {
+            match op["k"].as_str().unwrap() {
+                "u" => { let idx = usize_vec(&op["idx"]); let v = f64_vec(&op["v"]); d.update_values(&idx, &v);
+                         coq_ops.push(format!("OpU {} {}", cnlist(&idx), dyl(&v))); }
+                "s" => { let idx = usize_vec(&op["idx"]); let c = op["c"].as_f64().unwrap(); d.scale_values(&idx, c);
+                         coq_ops.push(format!("OpS {} {}", cnlist(&idx), cdy(c))); }
+                "P" => { let v = f64_vec(&op["v"]); let mut p2 = p.csc(); p2.nzval = v.clone(); d.update_P(&p2);
+                         coq_ops.push(format!("OpU {} {}", cnlist(&before.maps.P), dyl(&v))); }
+                "A" => { let v = f64_vec(&op["v"]); let mut a2 = a.csc(); a2.nzval = v.clone(); d.update_A(&a2);
+                         coq_ops.push(format!("OpU {} {}", cnlist(&before.maps.A), dyl(&v))); }
+                k => panic!("unknown op {}", k),
+            }
+        }
+        let after = d.snapshot();
+        (before, after, coq_ops)
+    });
+    match r {
+        None => Some("1%N".into()),
+        Some((before, after, coq_ops)) => {
+            let (l0, perm) = before.ldl_copy.clone()?;
+            let (l1, _) = after.ldl_copy.clone()?;
+            let all = [&before.K.nzval, &after.K.nzval, &l0, &l1];
+            if !all.iter().all(|v| v.iter().all(|x| x.is_finite())) { return None; }
+            Some(format!("(c_mapops {} {} {} [{}] {} {})", dyl(&before.K.nzval), dyl(&l0), cnlist(&perm),
+                         coq_ops.join(";"), dyl(&after.K.nzval), dyl(&l1)))
+        }
+    }
+}
+
+fn gen_mapops(sink: &mut CaseSink, st: &mut Stats, rng: &mut Rng, thorough: bool) {
+    let pool: Vec<CD> = vec![CD::Z(1), CD::NN(2), CD::SOC(3), CD::SOC(5), CD::SOC(6), CD::EXP, CD::GP(alpha_for(2), 1), CD::PSD(2)];
+    let nd = if thorough { 200 } else { 40 };
+    for it in 0..nd {
+        let nc = 1 + rng.below(4);
+        let cs: Vec<CD> = (0..nc).map(|_| rng.pick(&pool).clone()).collect();
+        let m: usize = cs.iter().map(|c| c.numel()).sum();
+        let n = 1 + rng.below(5);
+        let mut p = rand_p(rng, n, 1, 3, 4);
+        for v in p.nzval.iter_mut() { *v = dy8(rng, -16, 16); }
+        let mut a = rand_a(rng, m, n, 1, 3);
+        for v in a.nzval.iter_mut() { *v = dy8(rng, -16, 16); }
+        // nnz of the KKT matrix: ask the implementation
+        let ct: Vec<SupportedConeT<f64>> = cs.iter().map(|c| c.cone()).collect();
+        let nnz = match guarded(|| vh::assemble(&p.csc(), &a.csc(), &ct, false).K.nzval.len()) { Some(k) => k, None => continue };
+        if nnz == 0 { continue; }
+        let nops = 1 + rng.below(6);
+        let mut ops = vec![];
+        for _ in 0..nops {
+            match rng.below(6) {
+                0 | 1 => { let k = rng.below(nnz.min(8) + 1);
+                           let idx: Vec<usize> = (0..k).map(|_| rng.below(nnz)).collect();   // repeats allowed
+                           let v: Vec<f64> = (0..k).map(|_| dy8(rng, -64, 64)).collect();
+                           ops.push(json!({"k": "u", "idx": idx, "v": v})); }
+                2 | 3 => { let k = rng.below(nnz.min(8) + 1);
+                           let idx: Vec<usize> = (0..k).map(|_| rng.below(nnz)).collect();
+                           let c = *rng.pick(&[0.5, 2.0, -4.0, 0.25, -1.0, 0.0]);
+                           ops.push(json!({"k": "s", "idx": idx, "c": c})); }
+                4 => { let v: Vec<f64> = p.nzval.iter().map(|_| dy8(rng, -32, 32)).collect(); ops.push(json!({"k": "P", "v": v})); }
+                _ => { let v: Vec<f64> = a.nzval.iter().map(|_| dy8(rng, -32, 32)).collect(); ops.push(json!({"k": "A", "v": v})); }
+            }
+        }
+        let inp = json!({"P": p.json(), "A": a.json(), "cones": cds_json(&cs), "ops": ops});
+        if let Some(coq) = mapops_case(&inp) {
+            st.hit("values/mapops");
+            sink.case("mapops", inp, coq, &["values", "mapops"]);
+        } else {
+            st.hit("values/mapops-skipped");
+        }
+    }
+}
+
 fn replay_case(sink: &mut CaseSink, case: &Value) {
     let op = case["op"].as_str().unwrap_or("assemble");
     let inp = &case["input"];
@@ -710,6 +796,7 @@ fn replay_case(sink: &mut CaseSink, case: &Value) {
         "assemble" => Some(struct_case(inp)),
         "driven" => driven_case(inp),
         "live" => live_case(inp),
+        "mapops" => mapops_case(inp),
         _ => panic!("unknown op {}", op),
     };
     sink.case(op, inp.clone(), coq.unwrap_or_else(|| "0%N".into()), &["replay"]);
@@ -756,6 +843,7 @@ fn main() {
         gen_struct(&mut sink, &mut st, &mut rng, thorough);
         gen_values(&mut sink, &mut st, &mut rng, thorough);
         gen_values_reset(&mut sink, &mut st, &mut rng, thorough);
+        gen_mapops(&mut sink, &mut st, &mut rng, thorough);
         sink.record(json!({"stats": st.by}));
     }
     sink.record(json!({"meta": {"prop": "c11", "seed": seed, "tier": tier, "blas": blas_shim::AVAILABLE}}));
